@@ -126,4 +126,36 @@ theorem grad_zero_of_not_reach (env : Nat → R) (p : Prog R) (hd : DivOK p) (i 
     (h : (Prog.reach p i).getD k false = false) : (Prog.grad env p i).getD k 0 = 0 :=
   tangentsFrom_reach env i p hd [] [] [] rfl rfl (fun _ _ => by simp) k h
 
+/-! ### the generators' grammar only emits well-scoped programs -/
+
+theorem wellScopedFrom_append (p q : Prog R) (n : Nat) :
+    Prog.wellScopedFrom (p ++ q) n
+      = (Prog.wellScopedFrom p n && Prog.wellScopedFrom q (n + p.length)) := by
+  induction p generalizing n with
+  | nil => simp [Prog.wellScopedFrom]
+  | cons ins rest ih =>
+    simp only [List.cons_append, Prog.wellScopedFrom, ih, List.length_cons, Bool.and_assoc]
+    rw [show n + 1 + rest.length = n + (rest.length + 1) by omega]
+
+theorem Prog.Emitted.wellScoped {p : Prog R} (h : Prog.Emitted p) : p.WellScoped := by
+  induction h with
+  | nil => rfl
+  | snoc p ins _ hops ih =>
+    unfold Prog.WellScoped at ih ⊢
+    rw [wellScopedFrom_append, ih]
+    simp only [Prog.wellScopedFrom, Bool.and_true, Bool.true_and, Nat.zero_add, List.all_eq_true,
+      decide_eq_true_eq]
+    exact hops
+
+/-- … and every well-scoped program is one the grammar emits -/
+theorem Prog.Emitted.of_wellScoped (p : Prog R) (h : p.WellScoped) : Prog.Emitted p := by
+  induction p using List.reverseRecOn with
+  | nil => exact Prog.Emitted.nil
+  | append_singleton p ins ih =>
+    unfold Prog.WellScoped at h ih
+    rw [wellScopedFrom_append] at h
+    simp only [Prog.wellScopedFrom, Bool.and_true, Nat.zero_add, Bool.and_eq_true,
+      List.all_eq_true, decide_eq_true_eq] at h
+    exact Prog.Emitted.snoc p ins (ih h.1) h.2
+
 end EasyMl.Spec
